@@ -515,6 +515,11 @@ func Run(c *common.Ctx) error {
 			return err
 		}
 	}
+	for _, be := range []bool{false, true} {
+		if err := snapshotAfterLogRestart(c, be); err != nil {
+			return err
+		}
+	}
 	for i := 0; i < c.Pick(1, 3); i++ {
 		if err := multiDB(c, i); err != nil {
 			return err
